@@ -82,6 +82,9 @@ def make_scenario(rnd, counts, nues_choices=None, fault=None, opts=None):
     if "msin_val" in opts and counts["pdu"] == 0:
         msin_val = opts["msin_val"]      # an explicit subscriber number (registration-only runs: no PDU session identity is derived from it)
     msin = str(msin_val).zfill(msin_len)[-msin_len:]
+    if opts.get("msin_has_plmn") and counts["pdu"] == 0 and msin_len >= len(mcc + mnc) + 2:
+        # the home network's digits occur again inside the subscriber number (a registration-only run: no session identity is derived)
+        msin = ("1" + mcc + mnc + "0" * msin_len)[:msin_len - 1] + "1"
     imsi = mcc + mnc + msin
     bits = opts.get("gnb_bits", rnd.choice([22, 24, 27, 32]))
     # gnb_id is a YAML string: octets above 0x7f cannot be written in it (they would become UTF-8 sequences)
